@@ -282,9 +282,9 @@ def race_failures(races, loc, ctx):
         if exact:
             cls = exact[0]
             n_exact += 1
-        elif vcls:
-            pref = sorted((ca | cb) & vcls) or sorted(vcls)
-            cls = pref[0]
+        elif (ca | cb) & vcls:
+            # one of the two reported lines is a tracked access of a class flagged for this function pair
+            cls = sorted((ca | cb) & vcls)[0]
             n_unit += 1
         elif frozenset([ua, ub]) in loc.exempt_units:
             # a pair the static facts exempt by a non-lock ordering: the report refutes that hypothesis
@@ -317,6 +317,32 @@ def race_failures(races, loc, ctx):
     return fails, n_exact, n_unit, n_derived
 
 
+def runner_use(repo, fname, line):
+    """does server/<fname>:<line> use the llm runner a handler got from scheduleRunner (`r, … := s.scheduleRunner(…)` …
+    `r.Completion(` / `r.Tokenize`), or call chatPrompt's tokenize parameter (bound to r.Tokenize)?  F13f's panic can only
+    be raised there; any other panicking line is a different defect."""
+    try:
+        src = open(os.path.join(repo, "server", fname)).read().splitlines()
+    except OSError:
+        return False
+    if not (1 <= line <= len(src)):
+        return False
+    text = src[line - 1]
+    if fname == "prompt.go":
+        return bool(re.search(r"\btokenize\(", text))
+    for back in range(line - 1, max(0, line - 700), -1):
+        if re.match(r"^func ", src[back - 1]) and back != line:
+            break
+        m = re.match(r"^\s*(\w+), .*:= s\.scheduleRunner\(", src[back - 1])
+        if m:
+            return bool(re.search(r"\b%s\.[A-Z]\w*" % re.escape(m.group(1)), text))
+    return False
+
+
+def use_tag(repo, fname, line):
+    return " use=scheduled-runner" if runner_use(repo, fname, line) else " use=other"
+
+
 def crash_failure(out, loc, repo):
     """a panic / fatal error that killed the test process -> one L2 failure (or None)"""
     m = re.search(r"^(panic: .*|fatal error: .*)$", out, flags=re.M)
@@ -326,32 +352,38 @@ def crash_failure(out, loc, repo):
     # the first goroutine dump after the message belongs to the crashing goroutine
     f, l = server_frame(tail.split("\n\n")[1].splitlines() if "\n\n" in tail else tail.splitlines(), repo)
     unit = loc.unit(f, l) or f
-    return {"kind": "process-crash", "case": f"unit={unit}", "detail": f"{m.group(1)} at {f}:{l}"}
+    return {"kind": "process-crash", "case": f"unit={unit}" + use_tag(repo, f, l), "detail": f"{m.group(1)} at {f}:{l}"}
 
 
 # unit -> the function it was extracted from / is written in (facts["parents"]), and the unit names of the
 # pinned tree (corpus/C15/baseline_units.txt); filled by run()
-_ALT = {"parents": {}, "baseline": set()}
+_ALT = {"parents": {}, "baseline": set(), "unit_classes": set()}
 
 
-def origin_unit(u):
+def origin_unit(u, cls=None):
     """a closure is named after the function it is written in (closure numbering shifts when one is added); a
-    declared function that is new w.r.t. the baseline and has exactly one caller is named after that caller:
-    a helper extracted from a function with a known finding is still that finding"""
+    declared function that is new w.r.t. the baseline and has exactly one caller is named after that caller, but only
+    when the caller itself no longer accesses the class (the access MOVED into the helper: an extraction; new code in a
+    new helper next to the caller's own access does not inherit the caller's finding)"""
     for _ in range(8):
         p = _ALT["parents"].get(u)
-        if p is None or not ("$" in u or u not in _ALT["baseline"]):
+        if p is None:
             break
+        if "$" not in u:
+            if u in _ALT["baseline"] or (cls is not None and (p, cls) in _ALT["unit_classes"]):
+                break
         u = p
     return u
 
 
 def alt_case(case):
     if case.startswith("unit="):
-        return "unit=" + origin_unit(case[5:])
+        u, sep, rest = case[5:].partition(" ")
+        return "unit=" + origin_unit(u) + sep + rest
     parts = case.split("|")
     if len(parts) in (2, 3) and " " not in case:
-        return "|".join([parts[0]] + sorted(origin_unit(u) for u in parts[1:]))
+        cls = parts[0].split(":")[-1]
+        return "|".join([parts[0]] + sorted(origin_unit(u, cls) for u in parts[1:]))
     return case
 
 
@@ -378,6 +410,7 @@ def run(ctx):
         rule_l1(ctx)
     loc = Locator(facts)
     _ALT["parents"] = facts.get("parents") or {}
+    _ALT["unit_classes"] = {(f["func"], f["cls"]) for f in facts["facts"]}
     bp = os.path.join(core.ROOT, "corpus", "C15", "baseline_units.txt")
     _ALT["baseline"] = {ln.strip() for ln in open(bp) if ln.strip() and not ln.startswith("#")} if os.path.exists(bp) else set()
 
@@ -436,17 +469,32 @@ def run(ctx):
             ctx.stats["process_crashes"] = ctx.stats.get("process_crashes", 0) + 1
             ctx.classify([crash], matcher)
         elif rc != 0 and not ("race detected during execution of test" in out and "C15-SETUP" not in out
-                              and "test timed out" not in out):
+                              and "test timed out" not in out and len(races) > 0):
             ctx.violation("driver-failed", "", out[-1500:], no_input=True)
         ctx.read_stats(outdir)
         l2 = ctx.l2(outdir)
+        sites = []
         for f in l2:
             if f["kind"] == "panic-site":
                 m = re.search(r"site=server/([^:]+):(\d+)", f["case"])
                 if m:
-                    f["case"] = f"unit={loc.unit(m.group(1), int(m.group(2)))}"
+                    f["case"] = f"unit={loc.unit(m.group(1), int(m.group(2)))}" + use_tag(core.REPO, m.group(1), int(m.group(2)))
+                sites.append(f)
+        # a recovered panic seen on the HTTP side carries no site; it is the F13f panic only if EVERY panic gin recovered in
+        # this process was a nil dereference at a use of the scheduled runner
+        only_f13f = bool(sites) and all(f["case"].endswith(" use=scheduled-runner") and "nil pointer dereference" in f["detail"]
+                                        for f in sites)
+        for f in l2:
+            if f["kind"] == "panic-recovered":
+                f["case"] += " panics=" + ("only-nil-scheduled-runner" if only_f13f else "other-sites")
         ctx.classify(l2, matcher)
     ctx.stats["race_reports"] = races_total
+    if not ctx.replay:
+        floors = {"cases": ctx.scale(300, 3000), "op_ps": 1, "ps_nonempty": 1, "failedload_ps_requests": 1, "storerace_trials": 1}
+        low = [f"{k}={ctx.stats.get(k, 0)}<{v}" for k, v in floors.items() if ctx.stats.get(k, 0) < v]
+        if low:
+            ctx.violation("correspondence-coverage", "dynamic", "the witness search did not run as configured: " + ", ".join(low),
+                          no_input=True)
     ctx.stats["race_reports_matched_exact_line_and_class"] = exact
     ctx.stats["race_reports_matched_function_pair"] = unitlvl
     ctx.stats["race_reports_derived_from_racy_reference"] = derived
